@@ -90,12 +90,12 @@ func runMutants(o checkOpts) []MutantResult {
 				exec.Command("cp", filepath.Join(o.verif, n), vd).Run()
 			}
 			cargs := []string{"check", "-prop", o.prop, "-tier", "quick", "-repo", repo, "-verif", vd}
-			if os.Getenv("ZVC_MUTANT_FAST") != "" && r.Expect != "" && r.Expect != "none" {
+			if os.Getenv("ZVC_MUTANT_FAST") != "" && r.Expect != "" && r.Expect != "none" && strings.Contains(r.Expect, "#") {
 				// development aid for the long C01 corpus: verify only the function the expected
 				// obligation lives in (the scans always run). A mutant that is not killed this way
 				// must be re-run in full before it counts as survived.
 				fn := strings.SplitN(r.Expect, "#", 2)[0]
-				if strings.Contains(fn, "[") || !strings.Contains(r.Expect, "#") || strings.HasPrefix(fn, "writers.") || strings.HasPrefix(fn, "stable.") || strings.HasPrefix(fn, "reset.") {
+				if strings.Contains(fn, "[") || strings.HasPrefix(fn, "writers.") || strings.HasPrefix(fn, "stable.") || strings.HasPrefix(fn, "reset.") {
 					fn = "__scans_only__"
 				}
 				cargs = append(cargs, "-only", fn)
